@@ -30,6 +30,10 @@ def main():
     vals = {k: fractions.Fraction(int(v['num']), int(v['den'])) for k, v in r['inputs'].items()}
     st, detail = harness.replay_once(inst['body'], vals, inst.get('params'), r['claim'], inst.get('rel_tol', 1e-9))
     print('replay %s / %s: %s %s' % (r['instance'], r['claim'], st, json.dumps(detail, default=str)[:500]))
+    if st == 'missing' and detail.get('failed_seen'):
+        # the recorded claim is not reached in the float run; other claims of the instance fail at these inputs
+        print('replay: claim not reached; failing on the real code: %s' % ', '.join(detail['failed_seen']))
+        sys.exit(1)
     sys.exit(1 if st == 'violated' else 0)
 
 
